@@ -242,6 +242,12 @@ Definition base_contours (glyphs : list glyph_src) (gid : Z) : list contour :=
 Definition decompose (glyphs : list glyph_src) (comps : list (Z * affine)) : list contour :=
   flat_map (fun ct => map (transform_contour (snd ct)) (base_contours glyphs (fst ct))) comps.
 
+(* BE GlyphWork (component records) + GlyfLocaWork (box) *)
+Definition emit_composite (glyphs : list glyph_src) (comps : list (Z * affine)) : glyf_out :=
+  let outs := map (fun ct => emit_component (fst ct) (snd ct)) comps in
+  let parts := map (fun ct => (emit_component (fst ct) (snd ct), glyf_points (base_contours glyphs (fst ct)))) comps in
+  GComposite outs (composite_bbox parts).
+
 (* GlyphOrderWork (overflow test on the source transforms) + BE GlyphWork +
    GlyfLocaWork *)
 Definition build_glyph (p : profile) (glyphs : list glyph_src) (g : glyph_src) : outcome glyf_out :=
@@ -251,10 +257,7 @@ Definition build_glyph (p : profile) (glyphs : list glyph_src) (g : glyph_src) :
   | SrcComposite _ _ comps =>
       if existsb (fun ct => overflows_2x2 (snd ct)) comps
       then simple_glyph p (decompose glyphs comps)
-      else
-        let outs := map (fun ct => emit_component (fst ct) (snd ct)) comps in
-        let parts := map (fun ct => (emit_component (fst ct) (snd ct), glyf_points (base_contours glyphs (fst ct)))) comps in
-        Emit (GComposite outs (composite_bbox parts))
+      else Emit (emit_composite glyphs comps)
   end.
 
 Definition glyf_bbox (g : glyf_out) : option bbox :=
@@ -441,6 +444,19 @@ Definition build (p : profile) (s : src) : outcome font :=
    (on the source transforms) and is not repeated. *)
 Definition flatten_component (outer : affine) (inner : list (Z * affine)) : list (Z * affine) :=
   map (fun ct => (fst ct, aff_mul outer (snd ct))) inner.
+
+Inductive nested := NLeaf (gid : Z) (t : affine) | NNode (t : affine) (inner : list (Z * affine)).
+Definition nested_transforms (n : nested) : list affine :=
+  match n with NLeaf _ t => [t] | NNode t inner => t :: map snd inner end.
+Definition flatten_glyph (l : list nested) : list (Z * affine) :=
+  flat_map (fun n => match n with NLeaf g t => [(g, t)] | NNode t inner => flatten_component t inner end) l.
+(* a glyph none of whose source transforms overflows stays a composite; after
+   flattening its records are written without a second look at the range *)
+Definition build_flattened (p : profile) (glyphs : list glyph_src) (l : list nested) : outcome glyf_out :=
+  match flatten_glyph l with
+  | [] => Emit GEmpty
+  | comps => Emit (emit_composite glyphs comps)
+  end.
 
 (* ---- variation deltas between two masters ----------------------------------------------- *)
 (* VariationModel::deltas on two masters gives master1 - master0 for the second
